@@ -9,6 +9,7 @@
 -/
 import Props.Defs
 import Proofs.Indel
+import Proofs.IndelLoops
 namespace Coma.Props
 open Coma Coma.Spec
 
@@ -80,5 +81,31 @@ theorem C20_file_types (blur : Int) (ins dels : List Call) :
 /-- non-vacuity: insertions only -/
 example : ((indelFile 30000 [⟨true, 1, 100, 200, [7], 1, 2, -5000, 1⟩, ⟨true, 1, 150, 250, [8], 1, 2, -5000, 1⟩] []).map (·.count)) = [2] := by
   decide +kernel
+
+/-! ### the finders' loops (label look-ups, guards, several breakage places) -/
+
+/-- every call the segment finder reports for an alignment is the constructor applied to the coordinates of four
+    labels of the two maps (hence self-consistent by `C20_call`), at most one per breakage place -/
+theorem C20_segment_finder (chrom qid : Int) (rpos qpos : List Int) (pairs : List (Int × Int)) (bps : List Int) (cs : List Call)
+    (h : segmentCalls chrom qid rpos qpos pairs bps = .ok cs) :
+    cs.length ≤ bps.length ∧
+    ∀ c ∈ cs, ∃ rs re qs qe, rs ∈ rpos ∧ re ∈ rpos ∧ qs ∈ qpos ∧ qe ∈ qpos ∧ mkCall 100 chrom qid rs re qs qe = some c :=
+  ⟨Coma.Proofs.segmentCalls_length chrom qid rpos qpos pairs bps cs h, Coma.Proofs.segmentCalls_sound chrom qid rpos qpos pairs bps cs h⟩
+
+/-- a breakage place at or past the last pair is skipped, not an error (`len(alignedPairs) > index + 1`) -/
+theorem C20_segment_finder_guard (chrom qid : Int) (rpos qpos : List Int) (pairs : List (Int × Int)) (i : Int) (bps : List Int)
+    (hi : ¬ (pairs.length : Int) > i + 1) :
+    segmentCalls chrom qid rpos qpos pairs (i :: bps) = segmentCalls chrom qid rpos qpos pairs bps :=
+  Coma.Proofs.segmentCalls_skip chrom qid rpos qpos pairs i bps hi
+
+/-- likewise the molecule finder (threshold 2000) -/
+theorem C20_molecule_finder (chrom qid : Int) (rpos qpos : List Int) (pairs : List (Int × Int)) (index : Int) (bp : Int × Int) (c : Call)
+    (h : moleculeCall chrom qid rpos qpos pairs index bp = .ok (some c)) :
+    ∃ rs re qs qe, rs ∈ rpos ∧ re ∈ rpos ∧ qs ∈ qpos ∧ qe ∈ qpos ∧ mkCall 2000 chrom qid rs re qs qe = some c :=
+  Coma.Proofs.moleculeCall_sound chrom qid rpos qpos pairs index bp c h
+
+/-- non-vacuity: two breakage places, one deletion of 5000 bp found, the place at the last pair skipped -/
+example : ((segmentCalls 3 7 [0, 10000, 25000, 30000] [0, 10000, 20000, 25000] [(1, 1), (2, 2), (3, 3), (4, 4)] [1, 3]).toOption.map
+    fun cs => cs.map fun c => (c.isIns, c.rStart, c.rStop, c.length)) = some [(false, 10000, 25000, 5000)] := by decide +kernel
 
 end Coma.Props
